@@ -843,6 +843,15 @@ def glue_greenlet() -> None:
                     and outer_frame.f_back is not None
                 ):
                     outer_frame = outer_frame.f_back
+        elif sys.implementation.name == "cpython":
+            # A suspended greenlet's stack ends where its f_back chain does.
+            # We need to say so explicitly, because if we're being called from
+            # a descendant of this greenlet, then the greenlet-aware logic
+            # in unwrap_stackslice() would continue into the frames of this
+            # greenlet's ancestors, which are not part of its stack.
+            outer_frame = inner_frame
+            while outer_frame.f_back is not None:
+                outer_frame = outer_frame.f_back
         return StackSlice(outer=outer_frame, inner=inner_frame)
 
     if sys.implementation.name != "pypy":
